@@ -132,9 +132,9 @@ def oracle_fsc(ck, rng):
             ck.violation(what=f"FSC law violated: {fl}", inp={"shape": shape, "dfreq": dfreq, "seed": ck.seed, "i": i},
                          key={"site": "fsc-law", "law": fl}, oracle="fsc_laws")
     # loader level
-    for i in range(3 if ck.tier == "quick" else 20):
+    for i in range(4 if ck.tier == "quick" else 24):
         tomo = rng.normal(size=(24, 24, 24)).astype(np.float32)
-        nm = int(rng.integers(4, 9))
+        nm = int(rng.integers(2, 6)) * 2 + (i % 2)          # even and odd numbers of molecules
         mol = Molecules(rng.uniform(8, 15, size=(nm, 3)))
         ld = SubtomogramLoader(tomo, mol, order=1, output_shape=(6, 6, 6))
         seed = int(rng.integers(0, 100)); nset = int(rng.integers(1, 3))
@@ -149,6 +149,17 @@ def oracle_fsc(ck, rng):
         for s_ in range(nset):
             fq, f = fscf(hs[s_, 0] * mm, hs[s_, 1] * mm, 1.5 / 6)
             if not np.allclose(df[f"FSC-{s_}"].to_numpy(), f, atol=1e-5, equal_nan=True): fails.append("loader FSC is not the FSC of the two masked half averages")
+        # the two half maps are plain means over two disjoint sets of subtomograms: recover each half's weights by least squares
+        stack = np.stack([np.asarray(ld.load(j)) for j in range(nm)]).reshape(nm, -1).astype(np.float64)
+        hraw = ld.average_split(n_set=nset, seed=seed, squeeze=False)
+        for s_ in range(nset):
+            W = [np.linalg.lstsq(stack.T, np.asarray(hraw[s_, h_]).reshape(-1).astype(np.float64), rcond=None)[0] for h_ in (0, 1)]
+            mem = [w > 1e-4 for w in W]
+            if (mem[0] & mem[1]).any(): fails.append(f"half maps share subtomograms {np.nonzero(mem[0] & mem[1])[0].tolist()} (n={nm})")
+            for h_ in (0, 1):
+                k_ = int(mem[h_].sum())
+                if k_ == 0 or np.abs(W[h_][mem[h_]] - 1.0 / k_).max() > 1e-3 or np.abs(W[h_][~mem[h_]]).max(initial=0) > 1e-3:
+                    fails.append(f"half map {h_} is not the plain mean of a subset of the subtomograms (weights {np.round(W[h_], 3).tolist()})")
         ck.oracle_count("loader_fsc", 1, 1)
         for fl in set(fails):
             ck.violation(what=f"loader.fsc: {fl}", inp={"seed": seed, "n_set": nset, "mask": mask is not None}, key={"site": "loader-fsc", "law": fl[:30]},
@@ -163,7 +174,12 @@ def run(ck: common.Check):
     a = Anchors(common.REPO)
     anchors(a)
     ck.write_anchors(PID, a)
-    ck.build(["C17"], ["C17/Property.v", "C17/PropertyR.v"], extra=["C17/Model.v"])
+    # the half-map split is the C09 model of random_splitter (anchored to the source)
+    from props import C09
+    a9 = Anchors(common.REPO)
+    C09.anchors(a9)
+    ck.write_anchors("C09", a9)
+    ck.build(["C17"], ["C17/Property.v", "C17/PropertyR.v", "C17/PropertyHalves.v"], extra=["C17/Model.v"])
     rng = np.random.default_rng(ck.seed + 1717)
     corr_fsc(ck, rng)
     oracle_fsc(ck, rng)
